@@ -783,3 +783,50 @@ def run_info_then_dict(st, rng):
         return sess.calls + 1, None
     finally:
         sess.free()
+
+
+# ------------------------------------------------------------------ getFrameInfo on a skippable frame, rest through LZ4F_decompress
+def run_info_then_skippable(st, rng):
+    """LZ4F_getFrameInfo at the start of a SKIPPABLE frame consumes the magic number only and leaves the context in
+    dstage_getSFrameSize; the caller resumes at src + consumed, possibly with fewer than 4 bytes (the only way into
+    the staging branch of that stage, seeded change C08_5).  The rest of the input, split in any way, must be skipped
+    exactly and the following frame decoded.  Returns (evals, None | (status, what, detail))."""
+    payload = rng.randbytes(rng.choice([0, 1, 3, 4, 5, 100, 300]))
+    sk = skippable(rng.randrange(16), payload)
+    fr, content, meta = gen_frame(rng, b"", nblocks=rng.choice([1, 2]))
+    data = sk + fr
+    det = {"data": data.hex()[:1200], "payload": len(payload)}
+    sess = Session(st)
+    try:
+        if rng.random() < 0.5:      # a previous frame leaves stale bytes in the header staging area
+            fr0, c0, m0 = gen_frame(rng, b"", nblocks=1)
+            r0 = drive(sess, rng, fr0, rng.choice(["one", "rand"]), "large", hlen=m0["hlen"])
+            if r0["verdict"] in ("prop", "noprogress"):
+                return sess.calls, ("prop_fail", str(r0["what"]), det)
+            if r0["verdict"] != "complete":
+                sess.cd.reset()
+                if not sess.model_dead: sess.md.reset()
+            det["reused"] = True
+        give = rng.choice([8, 8, 9, 12, len(data)])
+        ci = sess.cd.frame_info(data[:give])
+        if not sess.model_dead:
+            mi = sess.md.frame_info(data[:give])
+            if ci != mi[:3]:
+                sess.corr = "getFrameInfo: code %s model %s" % (ci, mi[:3]); sess.model_dead = True
+        if ci[1] < 0 or ci[0] not in (4, 8):
+            return sess.calls + 1, ("prop_fail", "getFrameInfo on a skippable frame: consumed %d ret %d" % (ci[0], ci[1]), det)
+        ch = rng.choice(["one", "one", "rand", "hint", "whole"])
+        det.update({"chunking": ch, "info_consumed": ci[0]})
+        r = drive(sess, rng, data[ci[0]:], ch, rng.choice(["large", "7", "rand"]), hlen=rng.choice([1, 2, 3, 4]), multi=True)
+        det.update({"verdict": r["verdict"], "code": r.get("code")})
+        if r["verdict"] in ("prop", "noprogress"):
+            return sess.calls + 1, ("prop_fail", str(r["what"]), det)
+        ends = [a for a, b in r.get("frames", [])]
+        if r["verdict"] != "complete" or ends != [len(sk) - ci[0], len(data) - ci[0]] or r["frames"][1][1] != content:
+            return sess.calls + 1, ("prop_fail", "skippable frame entered through LZ4F_getFrameInfo, rest fed as '%s' chunks: %s %s, frame ends %s (expected %s)" % (
+                ch, r["verdict"], ERR.get(r.get("code"), r.get("code")), ends, [len(sk) - ci[0], len(data) - ci[0]]), det)
+        if sess.corr:
+            return sess.calls + 1, ("corr_fail", "model/code disagree: " + str(sess.corr), det)
+        return sess.calls + 1, None
+    finally:
+        sess.free()
